@@ -257,7 +257,7 @@ enum Verdict { V_EMPTY,        // blank or comment line: true, no call
                V_UNSPEC        // outside the documented format (see below): only memory safety, no exception, <= 1 call
              };
 struct Expect { Verdict v; int kind, idx; long ival; bool isreal; bool throws; bool hasval; int vb, ve; };
-static Expect reference(const char* s)
+static Expect reference_inner(const char* s, bool& unspec)
 {
    Expect x; x.v = V_MALFORMED; x.kind = -1; x.idx = -1; x.ival = 0; x.isreal = false; x.throws = false; x.hasval = false; x.vb = 0; x.ve = 0;
    g_pre.has = false;
@@ -267,25 +267,20 @@ static Expect reference(const char* s)
    Tok ty; ty.b = i;
    while(!t_blank(s[i]) && !t_end(s[i]) && s[i] != ':') ++i;
    ty.e = i; tok_copy(s, ty);
+   // a '#' or newline directly behind the type is stepped over by the real parser like a blank: the OUTCOME is not specified
+   // here (V_UNSPEC), but the reference goes on the same way so that it still knows the value token (assertion 12)
+   if(s[i] == '#' || s[i] == '\n') { unspec = true; ++i; }
    while(t_blank(s[i])) ++i;
-   if(s[i] != ':')
-   {
-      // a '#' or newline directly behind the type is stepped over by the real parser like a blank: not specified here
-      if(s[i] != '\0' && i == ty.e) x.v = V_UNSPEC;
-      return x;
-   }
+   if(s[i] != ':') return x;
    ++i;
    while(t_blank(s[i])) ++i;
    if(t_end(s[i])) return x;
    Tok nm; nm.b = i;
    while(!t_blank(s[i]) && !t_end(s[i]) && s[i] != '=') ++i;
    nm.e = i; tok_copy(s, nm);
+   if(s[i] == '#' || s[i] == '\n') { unspec = true; ++i; }       // as above, directly behind the name
    while(t_blank(s[i])) ++i;
-   if(s[i] != '=')
-   {
-      if(s[i] != '\0' && i == nm.e) x.v = V_UNSPEC;
-      return x;
-   }
+   if(s[i] != '=') return x;
    ++i;
    while(t_blank(s[i])) ++i;
    if(t_end(s[i])) return x;
@@ -355,6 +350,13 @@ static Expect reference(const char* s)
    if(!g_pre.real_ok) { x.v = V_UNSPEC; return x; }
    if(!g_pre.real_conv) { x.v = V_MALFORMED; x.throws = true; return x; }
    x.v = V_CALL; x.isreal = true;
+   return x;
+}
+static Expect reference(const char* s)
+{
+   bool unspec = false;
+   Expect x = reference_inner(s, unspec);
+   if(unspec) x.v = V_UNSPEC;                        // kind/idx stay: if a setter is called, it must be that one (assertion 11)
    return x;
 }
 
